@@ -20,7 +20,7 @@ def model_check(chk):
 
 def graph_paths(chk, maxcmds, limit):
     cfg = os.path.join(chk.outdir, "graph.cfg")
-    games.gen_cfg(cfg, {"ResetOnGo": True, "MaxCmds": maxcmds, "HashMinZero": False},
+    games.gen_cfg(cfg, {"ResetOnGo": True, "MaxCmds": maxcmds, "HashMinZero": False, "InfiniteMayEnd": False},
                   "SPECIFICATION Spec\nINVARIANT TypeOK\nCHECK_DEADLOCK FALSE\n")
     dot = os.path.join(chk.outdir, "graph")
     res = vlib.tlc("Uci", cfg=cfg, workers=1, timeout=1200, xmx="4g", dfs=False, extra=["-dump", "dot,actionlabels", dot])
